@@ -24,9 +24,9 @@ using namespace sim;
 namespace sim { void setProcessorCount(int n); }
 
 enum Code { T_CREATE = 1, T_REMOVE, L_LISTEN, L_REMOVE, E_ADDR, E_HOST, E_REMOVE, C_PAIR, C_REMOVE, C_WRITE, C_SUSPEND, C_RESUME, S_INTERRUPT, S_WAIT, S_ACCEPTPOLICY, S_QUIET,
-            R_CONNECT, R_LISTEN, R_STALL, I_INTERRUPT, I_STALL, C_CLOSEFAR, C_WRITEALL, C_CROWD, C_CROWDGONE, CODE_N };
+            R_CONNECT, R_LISTEN, R_STALL, I_INTERRUPT, I_STALL, C_CLOSEFAR, C_WRITEALL, C_CROWD, C_CROWDGONE, C_DUPFD, CODE_N };
 static const char* codeName[] = {"?", "timer.create", "timer.remove", "listen", "listener.remove", "connect.addr", "connect.host", "establisher.remove", "pair", "client.remove", "client.write", "client.suspend", "client.resume",
-  "interrupt(self)", "wait", "accept.policy", "quiet_period", "remote.connect", "remote.listen", "remote.stall", "interrupter.interrupt", "interrupter.stall", "client.peer_closes", "client.write_all", "crowd.create", "crowd.remove_all"};
+  "interrupt(self)", "wait", "accept.policy", "quiet_period", "remote.connect", "remote.listen", "remote.stall", "interrupter.interrupt", "interrupter.stall", "client.peer_closes", "client.write_all", "crowd.create", "crowd.remove_all", "client.descriptor_duplicated"};
 static const char* opName(int c) { return (c > 0 && c < CODE_N) ? codeName[c] : "?"; }
 
 enum Kind { K_TIMER, K_LISTENER, K_ESTAB, K_CLIENT, K_DRIVER };
@@ -53,6 +53,7 @@ static const int MAXENT = 320;
 struct Pending { int code; int slot; int64_t arg; };
 struct Ctx {
   const RunSpec* spec; Server* srv; Ent ent[MAXENT]; int nent;
+  int dups[8]; int ndups;   /* duplicates of client descriptors held by "somebody else" until the end of the run */
   Ent* crowd[96]; int ncrowd;   /* a crowd of extra pair clients: enough registered sockets for the poll layer's hash table (500 buckets) to have shared buckets */
   Ent* timerSlot[8];   /* with the driver and the loop's default timer up to ten queue entries: deep enough for every re-balancing case of the due-time tree */ Ent* listenerSlot[2]; Ent* estabSlot[3]; Ent* clientSlot[6];
   size_t pos; int waitTicks; bool scriptDone, finishing, stopped; Ent* driver;
@@ -261,6 +262,8 @@ static void execOp(int code, int slot, int64_t arg, Ent* self) {
     for (int i = 0; i < 6; ++i) { Ent* e = C.clientSlot[i]; if (!e || e->removed) continue; usize n = 1 + (usize)(arg % 200); usize post = 0; if (((Server::Client*)e->handle)->write(hb, n, &post)) e->accepted += n; else { e->failedIO = true; failedNow++; } }
     if (failedNow >= 2) probe("several_clients_failed_in_one_callback");
     break; }
+  case C_DUPFD: { /* somebody else holds a duplicate of the client's descriptor (a dup(), a child forked meanwhile): closing the client's own number does not end the open file description */
+    Ent* e = C.clientSlot[slot % 6]; if (e && !e->removed && C.ndups < 8) { int d = 700000 + C.ndups; if (dup2(e->fd, d) == d) { C.dups[C.ndups++] = d; probe("client_descriptor_duplicated"); } } break; }
   case C_CROWD: { /* many clients at once */
     int want = 40 + (int)(arg % 50);
     while (C.ncrowd < want && C.ncrowd < 96) { Ent* e = newEnt(K_CLIENT, -1); if (!e) break; e->far = new Socket; Server::Client* c = C.srv->pair(e->ccb, *e->far); if (!c) { e->alive = false; e->removed = true; break; }
@@ -367,6 +370,7 @@ static void mainTask(void*) {
   // a last interrupt issued by a late interrupter may be pending: harmless. tear down.
   for (int i = 0; i < C.nent; ++i) { Ent& e = C.ent[i]; if (e.kind != K_DRIVER && !e.removed && e.alive) removeEnt(&e); }
   if (C.driver && !C.driver->removed) { C.srv->remove(*(Server::Timer*)C.driver->handle); C.driver->removed = true; }
+  for (int i = 0; i < C.ndups; ++i) close(C.dups[i]);
   delete C.srv; C.srv = 0; delete C.quietSig; C.quietSig = 0;
   delete Future<void>::Private::_threadPool; Future<void>::Private::_threadPool = 0;   // joins the resolver workers inside the simulation
   typedef Map<uint32, Error::Private::Str> ErrMap;
@@ -399,6 +403,7 @@ static void generate(RunSpec& s, int tier) {
     if (profile == 5) o.a[3] = 0;   /* executed by the driver */
     if (profile == 4 && o.code == C_PAIR && r(2)) o.a[1] = 3 + 7 * (int64_t)r(1000);   /* three pairs at once */
     if (profile != 4 && r(25) == 0) o.code = r(2) ? C_CLOSEFAR : C_WRITEALL;
+    if ((profile == 0 || profile == 3 || profile == 4) && r(20) == 0) o.code = C_DUPFD;
     if (r(12) == 0) { o.code = S_QUIET; o.a[3] = 0; }   // bias towards small equal intervals: coincident due times
     s.plan.push_back(o);
   }
